@@ -707,7 +707,10 @@ pub fn run(prop: &'static str, tier: Tier, seed: u64) -> i32 {
         let r2 = run_replay_file(&path, replay_deadline);
         let crashy = f.rule == "no_crash" || f.rule == "no_hang";
         let reproduced = |r: &(i32, String)| if crashy { r.0 != 0 } else { r.0 == 1 };
-        if r1 != r2 && !(crashy && reproduced(&r1) && reproduced(&r2)) {
+        // both replays must reach the same verdict; their details may differ only when both
+        // reproduce the failure (a subject whose diagnostics come in a varying order is itself
+        // the finding, not a defect of the harness)
+        if r1 != r2 && !(reproduced(&r1) && reproduced(&r2)) {
             eprintln!(
                 "machinery error: replay of {} is not deterministic ({} vs {})",
                 path, r1.0, r2.0
